@@ -23,8 +23,8 @@ def _average(data, weights, nodata):
         v0 = data[i]
         if (not nan and v0 == nodata) or (nan and np.isnan(v0)):
             continue
-        w0 = weights[i]
-        v += w0 * v0
+        w0 = np.float64(weights[i])  # float32 weights: the interpreter summed them in float32, the JIT in float64
+        v += w0 * np.float64(v0)
         w += w0
     return v / w if w != 0 else nodata
 
